@@ -325,13 +325,20 @@ class Thread {
       Accum z = 0.0;
       prob_write.Mark();
       WordIndex count = 0;
+      // TODO HACK TODO: lmplz outputs p(<s>) = 1 to get q to compute nicely.  That will always result in 1.0 more than it should be.
+      // Leave that one record out of the sum.  Adding its 1.0 and subtracting it
+      // afterwards loses every term below 1e-19, i.e. the whole sum for large weights.
+      bool skipped_bos = false;
       for (; in; ++in, ++prob_write, ++count) {
         // Note assumption that probabilitity comes first
         memcpy(prob_write.Get(), in.Get(), sizeof(WordIndex) + sizeof(float));
-        z += pow(10.0, in->Prob());
+        if (!skipped_bos && in->Prob() == 0.0) {
+          skipped_bos = true;
+        } else {
+          z += pow(10.0, in->Prob());
+        }
       }
-      // TODO HACK TODO: lmplz outputs p(<s>) = 1 to get q to compute nicely.  That will always result in 1.0 more than it should be.
-      z -= 1.0;
+      if (!skipped_bos) z -= 1.0;
       float log_z = log10(z);
       prob_write.Rewind();
       // Normalize unigram probabilities.
